@@ -85,6 +85,9 @@ class SymFP:
     def sqrt(self):
         return SymFP(z3.fpSqrt(RNE, self.f))
 
+    def __floor__(self):
+        return SymFP(z3.fpRoundToIntegral(z3.RTN(), self.f))
+
     def _unary_uf(self, name):
         key = (name, self.f.get_id())
         if key not in CTX.sqrt_memo:
